@@ -47,6 +47,11 @@ CHECKS = {
             "are executed from pre-seeds 101 and 202: the generator state and the next draws afterwards must differ, and no library frame may call np.random.seed when no Sampler random_state is configured; every configuration x random_state "
             "is run three times in one process (back to back, and after disturbing the global stream) and must be bit-identical, different seeds must differ; inside clustering runs the generator state after every iteration must depend on the pre-seed.",
             "Trusted: numpy's legacy global generator semantics. Seeding from the user's own Sampler random_state is treated as legitimate.", "DESIGN.md §4 C09"),
+    "C10": ("model_checking",
+            "paired exploration: every run of a tape-deviation tree is executed twice (log-likelihood f and f+c) under the same owned tape and the two executions are compared at every step boundary (commuting-diagram oracle)",
+            "For every configuration of a covering array, every shift c in {-1e3,-37.25,0.5,64,1e3} (3 of them in quick) and every tape with <=1 per-iteration deviation, the real sampler is run with f and f+c; after each of the five pipeline steps of "
+            "each iteration beta, labels, counters, particle coordinates, normalised weights and ESS must agree (to rounding) and every recorded log-evidence must differ by beta*c; the final evidence by c.",
+            "Trusted: tolerances stated in evidence. A discrete mismatch is only reported if it reproduces on an independent tape (a floating tie does not).", "DESIGN.md §4 C10"),
     "C11": ("model_checking",
             "exhaustive enumeration of -inf mask sequences over the warm-up iterations (scripted prior draws and replacement answers) on the real Sampler.sample(), with a step-boundary monitor",
             "All sequences of zero-likelihood masks (m_1..m_W) in ({0,1}^n)^W for n in {2,3,4} and W in {1..4} warm-up iterations (W forced through ess_ratio), plus all replacement-index answers for small n, are executed through the real "
